@@ -289,6 +289,7 @@ def run(tier, seed):
         + [f"shipped:{n}" for n in SHIPPED] + [f"history:{n}" for n in (BENCH[:3] if tier == "quick" else BENCH)]
     tasks = [(seed, i, k, tier) for i, k in enumerate(kinds)]
     rs = runner.pmap(run_case, tasks)
+    runner.stamp("gen", "run_case", tasks, rs)
     errors = [dict(idx=r["idx"], kind=r["kind"], error=r["error"]) for r in rs if r["error"]]
     sites = collections.Counter()
     for r in rs:
